@@ -23,6 +23,23 @@ CHECKS = {
              "inconclusive, cross-checked against solver verdicts). Assumed: non-degenerate states (denominators non-zero). "
              "Outside: convergence/termination of M2E, floating-point loss near e->0, i->0.",
         ref="DESIGN.md section 3 C01", technique=TECH),
+    "C02": dict(
+        text="utils.matrix.rot1/2/3 and expand, Orientation.convert_to on the real orientation graph, the PEF_to_TOD and TIRF_to_CIRF "
+             "providers, iau1980/2010.rate, the GMST polynomial of iau1980._sideral, orbit2frame with LocalOrbitalOrientation, "
+             "Center.convert_to and Frame.transform are executed symbolically: the elementary rotations are proper passive "
+             "rotations composing additively; with the rotation built by the real code from a time-dependent sidereal angle "
+             "(dual numbers) and the rate vector the provider returns, the converted velocity is the time derivative of the converted "
+             "position and the inverse conversion undoes it; the rate vector is +z w0(1-LOD) and w0 equals the slope of the code's "
+             "own GMST polynomial to 1e-9 rad/s over 1973-2018; for every ordered triple of the 10 built-in orientations (symbolic "
+             "indices, all 1000 explored) and ARBITRARY provider contents convert(A,C) = convert(B,C) convert(A,B) and "
+             "convert(B,A) convert(A,B) = I (reduced words in the free groupoid on the providers); a frame attached to an orbit "
+             "(QSW, TNW, or parent orientation) has that orbit at rest at its origin, its axes are the orbit's local triad, "
+             "parent->frame->parent is the identity and distances are preserved.",
+        note="Trusted: z3; the path-composition clause is decided per explored path by word reduction (the solver enumerates the "
+             "index triples and proves exhaustiveness) -- the thinnest use of the technique here. Outside (declared): agreement "
+             "of the IAU-1980/2010 numbers with independent sidereal time / ERA / precession, 1980 vs 2010 < 0.1 arcsec, real IERS "
+             "data (series of 106/1600 terms and tables: no algebraic oracle); station frames are under C11.",
+        ref="DESIGN.md section 3 C02", technique=TECH),
     "C03": dict(
         text="beyond.dates.date runs symbolically on float/int subclasses that wrap exact reals (// % divmod with Python's floor "
              "semantics, int() truncation) and on exact-second models of datetime/timedelta, with one symbolic EOP record: offsets "
